@@ -100,6 +100,11 @@ class BasicBlock:
 
     def execute(self, *args, **kwargs):
         # Note: The list of statements is ordered and can get CSE or reordered within the block because we know it is straight calculation without control flow (a basic block)
+        # Rows of (n, 1) arrays arrive as size-1 arrays; evaluate on scalars so results can be assigned to array elements (required by numpy >= 2)
+        args = [
+            arg.item() if isinstance(arg, np.ndarray) and arg.size == 1 else arg
+            for arg in args
+        ]
         temporary_values = {}
         for name, expr in self._prefix:
             temporary_values[str(name)] = expr(*args, **kwargs, **temporary_values)
@@ -1119,17 +1124,15 @@ class SklearnEKFAdapter(BaseEstimator):
                 #   x: sensor readings
                 #   S: predicted sensor variance
                 innovation.append(
-                    float(
+                    np.matmul(
                         np.matmul(
-                            np.matmul(
-                                self.model_.innovations[key].T,
-                                np.linalg.inv(
-                                    self.model_.sensor_prediction_uncertainty[key]
-                                ),
+                            self.model_.innovations[key].T,
+                            np.linalg.inv(
+                                self.model_.sensor_prediction_uncertainty[key]
                             ),
-                            self.model_.innovations[key],
-                        )
-                    )
+                        ),
+                        self.model_.innovations[key],
+                    ).item()
                 )
                 if np.any(self.model_.sensor_prediction_uncertainty[key] < 0.0):
                     print(idx, "key", key)
